@@ -1,3 +1,4 @@
+import MioModel.Lemmas.SendLoop
 import MioModel.Lemmas.Stream
 import MioModel.Props.C12
 /-! # C10 — Concurrent send() calls on one endpoint never corrupt or lose messages
@@ -89,5 +90,14 @@ theorem udp_concurrent_whole (w : Mio.Udp.World) (h : Mio.Udp.Reachable w) (j a 
   apply List.filter_congr
   intro d _
   simp [Function.comp, Mio.Udp.cutK_src]
+
+/-- a section is never abandoned half-way: inside the lock the FramedTcp send loop ignores `WouldBlock`
+answers (any number) and returns before the whole frame is written only on a kernel error — so a stalled
+receiver delays the other senders, it never makes one of them leave a torn frame on the wire -/
+theorem framedSend_never_gives_up (data : Bytes) (sched : List WAns) :
+    framedSend data (sched.filter (fun a => a != .wouldBlock)) = framedSend data sched ∧
+    ((∀ a ∈ sched, a ≠ WAns.error) →
+      (framedSend data sched).status = none ∨ (framedSend data sched).status = some .sent) :=
+  ⟨framedSendLoop_wouldBlock_transparent _ data sched 0, framedSendLoop_no_error _ data sched 0⟩
 
 end Mio.C10
